@@ -60,7 +60,9 @@ Record bindrec := {
 }.
 
 Inductive wbody := WSyn | WSeg (sd : S.side) (p : S.pkt).
-Record wmsg := { m_cid : N; m_body : wbody }.
+(* m_parked: the message has DeliveryStatus::Hold (sent or present while the link was held) *)
+Record wmsg := { m_cid : N; m_body : wbody; m_parked : bool }.
+Definition set_parked (m : wmsg) (b : bool) := {| m_cid := m_cid m; m_body := m_body m; m_parked := b |}.
 
 Record hoststate := {
   h_binds : list (N * bindrec);       (* port -> bind *)
@@ -73,7 +75,8 @@ Record link := {
   l_a : N; l_b : N;                   (* l_a < l_b *)
   l_sent : list wmsg;
   l_rdy_a : list wmsg; l_rdy_b : list wmsg;   (* deliverable[a], deliverable[b] *)
-  l_cut_ab : bool; l_cut_ba : bool
+  l_cut_ab : bool; l_cut_ba : bool;     (* direction explicitly partitioned *)
+  l_held_ab : bool; l_held_ba : bool    (* direction in State::Hold *)
 }.
 
 Record world := {
@@ -207,13 +210,16 @@ Definition on_link (l : link) (x y : N) : bool :=
 
 Definition set_sent (l : link) s :=
   {| l_a := l_a l; l_b := l_b l; l_sent := s; l_rdy_a := l_rdy_a l; l_rdy_b := l_rdy_b l;
-     l_cut_ab := l_cut_ab l; l_cut_ba := l_cut_ba l |}.
+     l_cut_ab := l_cut_ab l; l_cut_ba := l_cut_ba l; l_held_ab := l_held_ab l; l_held_ba := l_held_ba l |}.
 Definition set_rdys (l : link) ra rb :=
   {| l_a := l_a l; l_b := l_b l; l_sent := l_sent l; l_rdy_a := ra; l_rdy_b := rb;
-     l_cut_ab := l_cut_ab l; l_cut_ba := l_cut_ba l |}.
+     l_cut_ab := l_cut_ab l; l_cut_ba := l_cut_ba l; l_held_ab := l_held_ab l; l_held_ba := l_held_ba l |}.
 Definition set_cuts (l : link) ab ba :=
   {| l_a := l_a l; l_b := l_b l; l_sent := l_sent l; l_rdy_a := l_rdy_a l; l_rdy_b := l_rdy_b l;
-     l_cut_ab := ab; l_cut_ba := ba |}.
+     l_cut_ab := ab; l_cut_ba := ba; l_held_ab := l_held_ab l; l_held_ba := l_held_ba l |}.
+Definition set_helds (l : link) ab ba :=
+  {| l_a := l_a l; l_b := l_b l; l_sent := l_sent l; l_rdy_a := l_rdy_a l; l_rdy_b := l_rdy_b l;
+     l_cut_ab := l_cut_ab l; l_cut_ba := l_cut_ba l; l_held_ab := ab; l_held_ba := ba |}.
 
 (* source / destination host of a message *)
 Definition msg_src (w : world) (m : wmsg) : option N :=
@@ -235,6 +241,8 @@ Definition msg_dst (w : world) (m : wmsg) : option N :=
 
 Definition cut_from (l : link) (src : N) : bool :=
   if N.eqb src (l_a l) then l_cut_ab l else l_cut_ba l.
+Definition held_from (l : link) (src : N) : bool :=
+  if N.eqb src (l_a l) then l_held_ab l else l_held_ba l.
 
 (* mark SYNs that were dropped by the network: their ack sender is gone *)
 Definition syn_gone (w : world) (m : wmsg) : world :=
@@ -243,13 +251,27 @@ Definition syn_gone (w : world) (m : wmsg) : world :=
   | _ => w
   end.
 
-(* Link::enqueue of a message from host src to host dst (src <> dst) *)
+Definition to_host (w : world) (h : N) (m : wmsg) : bool :=
+  match msg_dst w m with Some d => N.eqb d h | None => false end.
+
+(* Link::process_deliverables with zero latency: every message that is not parked by a hold
+   moves to the deliverable queue of its destination (a stable partition of `sent`) *)
+Definition flow_link (w : world) (l : link) : link :=
+  let m := filter (fun x => negb (m_parked x)) (l_sent l) in
+  let keep := filter m_parked (l_sent l) in
+  set_rdys (set_sent l keep) (l_rdy_a l ++ filter (to_host w (l_a l)) m)
+           (l_rdy_b l ++ filter (fun x => negb (to_host w (l_a l) x) && to_host w (l_b l) x) m).
+
+(* Link::enqueue_message of a message from host src to host dst (src <> dst): dropped on a
+   partitioned direction, parked on a held one, otherwise due at once; then process_deliverables *)
 Definition link_send (w : world) (src dst : N) (m : wmsg) : world :=
   match find (fun l => on_link l src dst) (w_links w) with
   | None => syn_gone w m
   | Some l0 =>
       if cut_from l0 src then syn_gone w m
-      else set_links w (upd_first (fun l => on_link l src dst) (fun l => set_sent l (l_sent l ++ [m])) (w_links w))
+      else set_links w (upd_first (fun l => on_link l src dst)
+                          (fun l => flow_link w (set_sent l (l_sent l ++ [set_parked m (held_from l src)])))
+                          (w_links w))
   end.
 
 (* send_loopback on host h *)
@@ -264,7 +286,7 @@ Definition flush (w : world) (c : N) : world :=
       let out := S.wire (k_sys k) in
       let w1 := upd_conn w c (fun k' => set_sys k' (S.set_wire (k_sys k') [])) in
       fold_left (fun (w' : world) (sp : S.side * S.pkt) =>
-        let m := {| m_cid := c; m_body := WSeg (fst sp) (snd sp) |} in
+        let m := {| m_cid := c; m_body := WSeg (fst sp) (snd sp); m_parked := false |} in
         if S.lo (k_sys k) then loop_send w' (k_host k) m
         else match msg_src w' m, msg_dst w' m with
              | Some s, Some d => link_send w' s d m
@@ -358,7 +380,7 @@ Definition do_connect (w : world) (h sid : N) (dst : addr) : world * res :=
                   k_sys := sys_connecting (w_cap w) lo |} in
       let w1 := upd_host w h (fun hs => set_cursor hs cur) in
       let w2 := set_streams (set_conns w1 (w_conns w1 ++ [k])) (w_streams w1 ++ [(h, sid, (c, S.A))]) in
-      let m := {| m_cid := c; m_body := WSyn |} in
+      let m := {| m_cid := c; m_body := WSyn; m_parked := false |} in
       let w3 := if lo then loop_send w2 h m
                 else match dhost with
                      | None => upd_conn w2 c (fun k' => set_syn k' SynGone)       (* no link: Err at once *)
@@ -393,7 +415,7 @@ Definition do_poll (w : world) (c : N) : world * res :=
 (* the RST an abandoned connect sends to its destination (fix 48e101e): over the loopback
    path, over the link (dropped if that direction is partitioned), or nowhere *)
 Definition send_abandon_rst (w : world) (c : N) (k : conn) : world :=
-  let m := {| m_cid := c; m_body := WSeg S.A S.PRst |} in
+  let m := {| m_cid := c; m_body := WSeg S.A S.PRst; m_parked := false |} in
   if S.lo (k_sys k) then loop_send w (k_host k) m
   else match k_dhost k with
        | Some d => link_send w (k_host k) d m
@@ -527,25 +549,30 @@ Definition stream_op (w : world) (h sid : N) (e : S.ev) : world * res :=
 
 (* ---- network events ---------------------------------------------------------------------- *)
 
-Fixpoint split_sent (i : nat) (ks : list nat) (l : list wmsg) : list wmsg * list wmsg :=
+(* SentRef::deliver on the positions ks of Sim::links: DeliveryStatus::DeliverAfter(now) *)
+Fixpoint unpark_at (i : nat) (ks : list nat) (l : list wmsg) : list wmsg :=
   match l with
-  | [] => ([], [])
-  | m :: r => let '(a, b) := split_sent (S i) ks r in
-              if existsb (Nat.eqb i) ks then (m :: a, b) else (a, m :: b)
+  | [] => []
+  | m :: r => (if existsb (Nat.eqb i) ks then set_parked m false else m) :: unpark_at (S i) ks r
   end.
 
-Definition to_host (w : world) (h : N) (m : wmsg) : bool :=
-  match msg_dst w m with Some d => N.eqb d h | None => false end.
-
-Definition mature_link (w : world) (l : link) (ks : list nat) : link :=
-  let '(m, keep) := split_sent 0 ks (l_sent l) in
-  set_rdys (set_sent l keep) (l_rdy_a l ++ filter (to_host w (l_a l)) m)
-           (l_rdy_b l ++ filter (fun x => negb (to_host w (l_a l) x) && to_host w (l_b l) x) m).
+Definition on_pair (w : world) (a b : N) (f : link -> link) : world :=
+  set_links w (map (fun l => if on_link l a b then f l else l) (w_links w)).
 
 Definition do_mature (w : world) (a b : N) (ks : list nat) : world :=
-  set_links w (map (fun l => if on_link l a b then mature_link w l ks else l) (w_links w)).
-Definition do_mature_all (w : world) : world :=
-  set_links w (map (fun l => mature_link w l (seq 0 (length (l_sent l)))) (w_links w)).
+  on_pair w a b (fun l => set_sent l (unpark_at 0 ks (l_sent l))).
+(* Topology::tick_by: process_deliverables on every link *)
+Definition do_tick (w : world) : world := set_links w (map (flow_link w) (w_links w)).
+(* Link::hold / release / explicit_repair / repair_oneway *)
+Definition do_hold (w : world) (a b : N) : world :=
+  on_pair w a b (fun l => set_sent (set_helds (set_cuts l false false) true true) (map (fun m => set_parked m true) (l_sent l))).
+Definition do_release (w : world) (a b : N) : world :=
+  on_pair w a b (fun l => set_sent (set_helds (set_cuts l false false) false false) (map (fun m => set_parked m false) (l_sent l))).
+Definition do_repair (w : world) (a b : N) : world :=
+  on_pair w a b (fun l => set_helds (set_cuts l false false) false false).
+Definition do_repair_one (w : world) (a b : N) : world :=
+  on_pair w a b (fun l => if N.eqb a (l_a l) then set_helds (set_cuts l false (l_cut_ba l)) false (l_held_ba l)
+                          else set_helds (set_cuts l (l_cut_ab l) false) (l_held_ab l) false).
 
 (* Topology::deliver_messages for host h: every link with h as an endpoint, in
    registration order *)
@@ -578,15 +605,13 @@ Definition do_partition (w : world) (a b : N) (oneway : bool) : world :=
       let w1 := set_links w (map (fun l =>
                   if on_link l a b then
                     if oneway then
-                      set_sent (if N.eqb a (l_a l) then set_cuts l true (l_cut_ba l) else set_cuts l (l_cut_ab l) true)
+                      set_sent (if N.eqb a (l_a l) then set_helds (set_cuts l true (l_cut_ba l)) false (l_held_ba l)
+                                else set_helds (set_cuts l (l_cut_ab l) true) (l_held_ab l) false)
                                (filter (fun m => negb (from_host w a m)) (l_sent l))
-                    else set_sent (set_cuts l true true) []
+                    else set_sent (set_helds (set_cuts l true true) false false) []
                   else l) (w_links w)) in
       fold_left syn_gone dropped w1
   end.
-
-Definition do_repair (w : world) (a b : N) : world :=
-  set_links w (map (fun l => if on_link l a b then set_cuts l false false else l) (w_links w)).
 
 Definition do_loop_step (w : world) (h : N) : world * bool :=
   match get_host w h with
@@ -637,8 +662,9 @@ Inductive ev :=
 | Accept (h lid sid : N)
 | DropListener (h lid : N)
 | SOp (h sid : N) (e : S.ev)
-| Mature (a b : N) (ks : list nat)
-| MatureAll
+| Mature (a b : N) (ks : list nat)   (* SentRef::deliver on positions ks; takes effect at the next Tick *)
+| Tick                               (* the network tick at the start of Sim::step *)
+| Hold (a b : N) | Release (a b : N) | RepairOne (a b : N)
 | Drain (h : N)
 | Partition (a b : N) | PartitionOne (a b : N) | Repair (a b : N)
 | LoopStep (h : N)
@@ -661,7 +687,10 @@ Definition step (w : world) (e : ev) : world * res :=
   | DropListener h lid => do_drop_listener w h lid
   | SOp h sid e' => stream_op w h sid e'
   | Mature a b ks => (do_mature w a b ks, RNone)
-  | MatureAll => (do_mature_all w, RNone)
+  | Tick => (do_tick w, RNone)
+  | Hold a b => (do_hold w a b, RNone)
+  | Release a b => (do_release w a b, RNone)
+  | RepairOne a b => (do_repair_one w a b, RNone)
   | Drain h => panic_res (drain_links w h (length (w_links w)))
   | Partition a b => (do_partition w a b false, RNone)
   | PartitionOne a b => (do_partition w a b true, RNone)
@@ -674,7 +703,8 @@ Definition step (w : world) (e : ev) : world * res :=
 (* links of n hosts in registration order h0, h1, ..: (0,1), (0,2), (1,2), .. *)
 Definition init_links (n : nat) : list link :=
   flat_map (fun b => map (fun a => {| l_a := N.of_nat a; l_b := N.of_nat b; l_sent := []; l_rdy_a := [];
-                                       l_rdy_b := []; l_cut_ab := false; l_cut_ba := false |}) (seq 0 b))
+                                       l_rdy_b := []; l_cut_ab := false; l_cut_ba := false;
+                                       l_held_ab := false; l_held_ba := false |}) (seq 0 b))
            (seq 0 n).
 
 Definition init (n cp : nat) (lo hi : N) : world :=
